@@ -4,6 +4,10 @@
       values (PROPFAIL C16 ..., or KNOWN C16 F19 ... inside the region of the open finding),
   (2) recomputes the outcome with the L1 model of Model/Multi.lean, random draws taken from the
       observation and checked for validity, and compares exactly (MISMATCH).
+  Sentences that C16 shares with other properties carry one verdict per property (" ;; "): per-host
+  availability of a split C02, pool-level departure / arrival C17, the establishment rule C12, the landing
+  class C04 / C05, the deterministic disperser count C04, per-host mortality parameters C11, mortality on a
+  consistent state C03; a host move (forwarded to the first host) is judged by the single-host predicates.
   Protocol (landscape 1 x 2; every host lists both cells on every line):
     mh.arrival <name> => <ok|err:..> <current value>
     mh.begin <hosts> <land|infect> <cfg stochastic> <cfg pEst> <weather 0|1>
@@ -129,6 +133,19 @@ def handle (st : State) (cmd : String) (inp obsToks : List String) : State × St
         if mustReject && res = "ok" then (st, "PROPFAIL C16 pest_host_table_accepted_bad_row")
         else if !mustReject && res ≠ "ok" then (st, s!"PROPFAIL C16 pest_host_table_rejected_good_rows {res}")
         else if res ≠ (match e with | none => "ok" | some k => errTok k) then (st, "MISMATCH mh.readpht result")
+        else if !mustReject && rows != stored then
+          -- C11 / C16: the rate, lag and susceptibility GIVEN for host h are the ones that apply to host h: an
+          -- accepted table must hold, row by row, the three values handed in (later lines are judged against
+          -- the table as given)
+          let given := values.map fun r => (r.getD 0 0, r.getD 1 0, r.getD 2 0)
+          let got := stored.map fun r => (r.sus, r.rate, r.lag)
+          let h := ((List.range (max given.length got.length)).find? fun k => given[k]? != got[k]?).getD 0
+          let rateLag := (given.map fun x => (x.2.1, x.2.2)) != (got.map fun x => (x.2.1, x.2.2))
+          let sus := (given.map (·.1)) != (got.map (·.1))
+          ({ st with pht := some (PestHostTable.ofConfig rows) },
+           " ;; ".intercalate (
+             (if rateLag then [s!"PROPFAIL C11 per_host_parameters table row {h} stored={got[h]?} given={given[h]?} (sus, rate, lag)"] else []) ++
+             (if sus || !rateLag then [s!"PROPFAIL C16 per_host_table_row row {h} stored={got[h]?} given={given[h]?} (sus, rate, lag)"] else [])))
         else if rows != stored then (st, "MISMATCH mh.readpht rows")
         else ({ st with pht := some (PestHostTable.ofConfig rows) }, "ok")
     | _, _ => (st, "BADLINE")
@@ -184,6 +201,25 @@ def handle (st : State) (cmd : String) (inp obsToks : List String) : State × St
             if f19Region c e then (st, s!"KNOWN C16 F19 s={c.s} suitability=0 multi_calls={mcalls} bare_calls={bcalls}")
             else (st, s!"PROPFAIL C16 single_host_stream multi_calls={mcalls} bare_calls={bcalls} s={c.s}")
           else
+            -- the bare host against the rule itself (C12: establishes iff a susceptible host is present and the
+            -- tester is below susceptible / population x weather x ITS susceptibility - the scaling C16 states;
+            -- C04 / C05: one susceptible host becomes infected (SI) / exposed (SEI)), on the observed result
+            let suit := (c.s : Rat) / (e.n : Rat) * e.sus.getD 1 * e.w.getD 1
+            let inRule := inDomain && decide (e.n > 0) && decide (0 ≤ suit) && decide (suit ≤ 1)
+            let rule : Option String :=
+              match parseInt? bret, bcells[a]? with
+              | some k, some c' =>
+                if !inRule then none
+                else if !(establishSpec c e p.sto p.pEst u k) then
+                  some (s!"PROPFAIL C12 establish_event single host s={c.s} N={e.n} suitability={suit} u={u} ret={k}" ++
+                        s!" ;; PROPFAIL C16 establish_event single host s={c.s} N={e.n} suitability={suit} u={u} ret={k}")
+                else if !(landingSpec p.mt c c' k) then
+                  some (s!"PROPFAIL C04 landing ret={k} pre={HostEng.showCell c} post={HostEng.showCell c'}" ++
+                    (if p.mt == .sei && k == 1 && !c.e.isEmpty && !(arrivalsStayExposed c c') then
+                      s!" ;; PROPFAIL C05 arrival_not_exposed pre={HostEng.showCell c} post={HostEng.showCell c'}" else ""))
+                else none
+              | _, _ => none
+            if rule.isSome then (st, rule.getD "ok") else
             -- the bare host against its own model
             let model := c.disperserTo p.mt e p.sto p.pEst u
             let exp := match model with
@@ -222,7 +258,14 @@ def handle (st : State) (cmd : String) (inp obsToks : List String) : State × St
             | none => (st, "BADLINE")
             | some res =>
               if !(atMostOneSpec st.ps pre post res) then
-                finish st o s!"PROPFAIL C16 at_most_one_host ret={res} pre={showCells pre} post={showCells post}"
+                -- C05 / C04: in an SEI host the individual that establishes becomes EXPOSED, never infected at once
+                let sei : Option String := (List.range pre.length).findSome? fun h =>
+                  let x := pre[h]!; let y := post[h]!
+                  if (st.ps[h]!).mt == .sei && !x.e.isEmpty && x != y && !(arrivalsStayExposed x y) then
+                    some (s!" ;; PROPFAIL C05 arrival_not_exposed host={h} pre={HostEng.showCell x} post={HostEng.showCell y}" ++
+                          s!" ;; PROPFAIL C04 established_host_not_exposed host={h} pre={HostEng.showCell x} post={HostEng.showCell y}")
+                  else none
+                finish st o (s!"PROPFAIL C16 at_most_one_host ret={res} pre={showCells pre} post={showCells post}" ++ sei.getD "")
               else
                 let specFail : Option String :=
                   match ws with
@@ -231,7 +274,9 @@ def handle (st : State) (cmd : String) (inp obsToks : List String) : State × St
                     if sumR l > 1 then some s!"PROPFAIL C16 suitability_over_one not_rejected total={sumR l} ret={res}"
                     else if pre.length ≥ 2 && decide (sumR l > 0) && !(validPickB l v pick) then some s!"MISMATCH mh.dispto pick={pickTok} not possible for the weights"
                     else if !(multiEstablishSpec st.cfg st.ps l pre pick u res) then
-                      some s!"PROPFAIL C16 establish_event ret={res} total={sumR l} pick={pick} u={u}"
+                      -- the establishment rule is C12's (probability = suitability; deterministic: suitability > 1 - p)
+                      some (s!"PROPFAIL C16 establish_event ret={res} total={sumR l} pick={pick} u={u}" ++
+                            s!" ;; PROPFAIL C12 establish_event ret={res} total={sumR l} weights={l} pick={pick} u={u}")
                     else none
                 match specFail with
                 | some f => finish st o f
@@ -255,8 +300,22 @@ def handle (st : State) (cmd : String) (inp obsToks : List String) : State × St
           else match parseInt? ret with
             | none => finish st o (if avail.all (fun x => decide (0 ≤ x)) then s!"PROPFAIL C16 split_rejected {ret}" else "ok")
             | some res =>
-              if avail.all (fun x => decide (0 ≤ x)) && !(splitSpec avail count d res && pestsFromStateSpec pre post d) then
-                finish st o s!"PROPFAIL C16 split_bounded pests_from count={count} ret={res} available={avail} taken={d}"
+              let dom := avail.all (fun x => decide (0 ≤ x))
+              let total := sumL avail
+              let vs := HostEng.joinVs [
+                if dom && !(splitSpec avail count d res && pestsFromStateSpec pre post d) then
+                  some s!"PROPFAIL C16 split_bounded pests_from count={count} ret={res} available={avail} taken={d}" else none,
+                -- C02: pests taken out of a host never exceed what it contained
+                if dom then ((List.range avail.length).find? fun h => decide (d.getD h 0 > avail[h]!)).map fun h =>
+                  s!"PROPFAIL C02 taken_le_present pests_from host={h} taken={d.getD h 0} infected={avail[h]!}" else none,
+                -- C17: the pests that leave are the count asked for (at most those present); the infected turn susceptible
+                if dom && decide (0 ≤ count) && decide (count ≤ total) &&
+                    (res != count || sumL d != count || sumL (post.map (·.s)) - sumL (pre.map (·.s)) != count) then
+                  some s!"PROPFAIL C17 source_infected_turn_susceptible count={count} ret={res} infected_lost={sumL d} susceptible_gained={sumL (post.map (·.s)) - sumL (pre.map (·.s))}" else none,
+                -- C01 / C02 / C03 per host (the list index is the host)
+                (HostEng.invariants pre post (fun _ => .reclassify) true (fun _ => false)).map (· ++ " (cell index = host)")]
+              if vs.isSome then finish st o (vs.getD "ok")
+              -- a negative request is outside the domain (the count is converted to unsigned): model comparison only
               else if !(validSplitB avail count d) then finish st o s!"MISMATCH mh.pestsfrom draw not valid taken={d}"
               else
                 let (cells', k) := multiPestsFrom pre d
@@ -273,8 +332,20 @@ def handle (st : State) (cmd : String) (inp obsToks : List String) : State × St
           else match parseInt? ret with
             | none => finish st o (if avail.all (fun x => decide (0 ≤ x)) then s!"PROPFAIL C16 split_rejected {ret}" else "ok")
             | some res =>
-              if avail.all (fun x => decide (0 ≤ x)) && !(splitSpec avail count d res && pestsToStateSpec pre post d) then
-                finish st o s!"PROPFAIL C16 split_bounded pests_to count={count} ret={res} available={avail} taken={d}"
+              let dom := avail.all (fun x => decide (0 ≤ x))
+              let total := sumL avail
+              let vs := HostEng.joinVs [
+                if dom && !(splitSpec avail count d res && pestsToStateSpec pre post d) then
+                  some s!"PROPFAIL C16 split_bounded pests_to count={count} ret={res} available={avail} taken={d}" else none,
+                -- C02: no host accepts more pests than it has susceptible individuals
+                if dom then ((List.range avail.length).find? fun h => decide (d.getD h 0 > avail[h]!)).map fun h =>
+                  s!"PROPFAIL C02 taken_le_present pests_to host={h} accepted={d.getD h 0} susceptible={avail[h]!}" else none,
+                -- C17: at the destination as many establish as there are susceptible hosts, the rest die
+                if dom && decide (0 ≤ count) &&
+                    (res != min count total || sumL (post.map (·.i)) - sumL (pre.map (·.i)) != min count total) then
+                  some s!"PROPFAIL C17 arrival count={count} ret={res} established={sumL (post.map (·.i)) - sumL (pre.map (·.i))} expected={min count total}" else none,
+                (HostEng.invariants pre post (fun _ => .reclassify) true (fun _ => false)).map (· ++ " (cell index = host)")]
+              if vs.isSome then finish st o (vs.getD "ok")
               else if !(validSplitB avail count d) then finish st o s!"MISMATCH mh.peststo draw not valid taken={d}"
               else
                 let (cells', k) := multiPestsTo pre d
@@ -287,11 +358,17 @@ def handle (st : State) (cmd : String) (inp obsToks : List String) : State × St
           let pre := cellsAt st.hosts a
           let model := multiDispersersFrom env st.ps pre
           let spec := dispersersSpec env st.ps pre
-          if o.hosts != st.hosts then finish st o "MISMATCH mh.dispfrom generation changed the hosts"
+          if o.hosts != st.hosts then finish st o "PROPFAIL C04 generation_changed_hosts (producing dispersers changes no host count)"
           else
             match spec with
             | some v =>
-              if ret ≠ toString v then finish st o s!"PROPFAIL C16 competency_scaling ret={ret} expected={v}"
+              if ret ≠ toString v then
+                -- C04 states the same product for one or several hosts (x host competency), and no dispersers without infection
+                finish st o (s!"PROPFAIL C16 competency_scaling ret={ret} expected={v}" ++
+                  (if (parseInt? ret).isSome then
+                     (if pre.all (fun c => decide (c.i ≤ 0)) then s!" ;; PROPFAIL C04 dispersers_without_infection ret={ret}"
+                      else s!" ;; PROPFAIL C04 deterministic_count ret={ret} expected={v} (sum over hosts of round(infected x rate x weather x competency))")
+                   else ""))
               else finish st o (if exceptTok toString model = ret then "ok" else s!"MISMATCH mh.dispfrom model={exceptTok toString model}")
             | none =>
               if (errOf? ret).isNone then finish st o s!"PROPFAIL C16 competency_lookup_not_rejected ret={ret}"
@@ -341,7 +418,10 @@ def handle (st : State) (cmd : String) (inp obsToks : List String) : State × St
           if (errOf? ret).isSome then
             finish st o (match model with
               | .error e => if errTok e = ret then "ok" else s!"MISMATCH mh.mortality model={errTok e}"
-              | .ok _ => s!"MISMATCH mh.mortality model=ok observed={ret}")
+              | .ok _ =>
+                -- C03: mortality never fails on a consistent state
+                if pre.all Cell.consistent then s!"PROPFAIL C03 mortality_failed_on_consistent_state {ret} cells={showCells pre}"
+                else s!"MISMATCH mh.mortality model=ok observed={ret}")
           else if !(othersSame st.hosts o.hosts a) then finish st o "PROPFAIL C16 per_host_mortality another_cell_changed"
           else
             -- each host with its own rate and lag, independent of the others
@@ -373,6 +453,11 @@ def handle (st : State) (cmd : String) (inp obsToks : List String) : State × St
           let dsts' := cellsAt o.hosts b
           match srcs, dsts, srcs', dsts' with
           | src :: _, dst :: _, src' :: _, _ :: _ =>
+            -- the move is forwarded to the first host: judged there by the single-host predicates (C01 ledger, C02,
+            -- C03, C05, C17 amount / draw without replacement / class and cohort membership), landscape 1 x 2
+            let hst : HostEng.State := { rows := 1, cols := 2 }
+            let pvs := HostEng.moveCellVerdicts hst (st.hosts.headD []) (o.hosts.headD []) 0 (a : Int) 0 (b : Int) cnt (some ret)
+            if !pvs.isEmpty then finish st o (" ;; ".intercalate pvs) else
             let d : ClassDraw := { i := src.i - src'.i, s := src.s - src'.s, e := src.te - src'.te, r := src.r - src'.r }
             let drawE := subL src.e src'.e
             let drawM := subL src.mort src'.mort
